@@ -9,9 +9,10 @@ def ns():
     global _NS
     if _NS is None:
         from mingus.core import notes, keys, intervals, scales, chords, progressions, value, meter
-        from mingus.extra import fft
+        from mingus.extra import fft, tunings
+        from mingus.containers import NoteContainer
         _NS = dict(notes=notes, keys=keys, intervals=intervals, scales=scales, chords=chords,
-                   progressions=progressions, value=value, meter=meter, fft=fft, mut=mut)
+                   progressions=progressions, value=value, meter=meter, fft=fft, mut=mut, tunings=tunings, NoteContainer=NoteContainer)
     return _NS
 
 
@@ -350,6 +351,13 @@ def run_case(c):
                 t.from_chords(["C", "Am"], 1)
                 return [e[2] for b in t.bars for e in b.bar if e[2] is not None]
             scenario("entries of a track whose chords were split across bar lines", split_entries, nc_ops)
+            def fingered_copies():
+                # a container handed out by a tuning (its notes carry string and fret), and containers built from it
+                from mingus.extra import tunings as _t
+                from mingus.containers import NoteContainer as _NC
+                src = _t.get_tuning("Guitar", "Standard").frets_to_NoteContainer([0, 0, 2, 2, 1, 0])
+                return [src, _NC(src), _NC() + src, _NC().add_notes(src) and _NC(src)]
+            scenario("a fingered container and containers built from it", fingered_copies, nc_ops)
             def chord_entries_tuned():
                 from mingus.extra import tunings as _t
                 t = Track()
